@@ -1,5 +1,8 @@
 (* C08 — row/column range arguments resolve with Python-style slice semantics.
-   Statements only. *)
+   Statements only.  view_bounds = model of the code (Surface/Bounds.v, i128 arithmetic as in the
+   crate since fix 3c25d1b); py_slice = the specification over unbounded Z.
+   Counted: the 6 Theorems.  Audited, not counted: Example C08_examples, the Check pin.
+   Domain: every usize axis length, 64-bit target. *)
 From Coq Require Import ZArith Bool.
 From SNT Require Import Surface.Bounds Surface.BoundsProofs.
 Local Open Scope Z_scope.
